@@ -316,3 +316,46 @@ def explore(fn, start, facts0, on_switch, is_target, limit=200000):
 def switch_edges(t):
     """[(value|'otherwise', succ)]"""
     return [(v, s) for v, s in t["targets"]] + [("otherwise", t["otherwise"])]
+
+
+def upvar_origin(F, closure_path, idx, depth=0):
+    """Follow captured variable #idx of a closure up to the enclosing function:
+    returns (fn, origin-dict) in the first non-closure ancestor (or where the chain stops)."""
+    cf = F.fns[closure_path]
+    parent_path = cf.d.get("direct_parent")
+    if cf.unit.endswith("executable") and not parent_path.startswith("[bin]"):
+        parent_path = "[bin]" + parent_path
+    parent = F.fns.get(parent_path)
+    if parent is None or depth > 6:
+        return None, {"k": "unknown"}
+    d = Defs(parent)
+    for b, i, s in parent.stmts():
+        rv = s.get("rv")
+        if rv and rv["k"] == "agg" and rv.get("closure") == closure_path.replace("[bin]", ""):
+            if idx >= len(rv["ops"]):
+                return parent, {"k": "unknown"}
+            o = d.origin_op(rv["ops"][idx])
+            base = o
+            while base.get("k") == "field":
+                base = base["base"]
+            # captured from the parent's own closure environment?
+            if parent.kind == "Closure" and base.get("k") == "arg" and base["n"] == 1 and o.get("k") == "field":
+                fidx = [e["f"] for e in o["proj"] if isinstance(e, dict) and "f" in e]
+                if fidx:
+                    return upvar_origin(F, parent_path, fidx[0], depth + 1)
+            return parent, o
+    return parent, {"k": "unknown"}
+
+
+def closure_env_field(origin):
+    """if an origin is a field of the closure environment (arg 1), return its index"""
+    o = origin
+    if o.get("k") != "field":
+        return None
+    base = o
+    while base.get("k") == "field":
+        base = base["base"]
+    if base.get("k") == "arg" and base["n"] == 1:
+        f = [e["f"] for e in o["proj"] if isinstance(e, dict) and "f" in e]
+        return f[0] if f else None
+    return None
